@@ -350,6 +350,7 @@ func (r *c03Run) do(n int, step bson.D) error {
 		writes := 0
 		var inErr error
 		failing := r.store.failNext
+		dirty := false
 		var werr error
 		func() {
 			defer func() {
@@ -381,8 +382,15 @@ func (r *c03Run) do(n int, step bson.D) error {
 						writes++
 					}
 				}
-				if s, ok := r.sessions[k].(*lungo.Session); ok && s.Transaction() != nil && s.Transaction().Dirty() && writes == 0 {
-					writes = 1 // a partially applied batch
+				// whether the commit reaches the store is decided by the
+				// transaction itself: a find-and-modify that found a document
+				// but changed nothing is "effective" by its result yet leaves
+				// the transaction clean
+				if s, ok := r.sessions[k].(*lungo.Session); ok && s.Transaction() != nil {
+					dirty = s.Transaction().Dirty()
+					if dirty && writes == 0 {
+						writes = 1 // a partially applied batch
+					}
 				}
 				switch outcome {
 				case "error":
@@ -397,12 +405,12 @@ func (r *c03Run) do(n int, step bson.D) error {
 			e3.close()
 			return inErr
 		}
-		committed := outcome == "ok" && !(failing && writes > 0)
-		if outcome == "ok" && failing && writes > 0 && werr == nil {
+		committed := outcome == "ok" && !(failing && dirty)
+		if outcome == "ok" && failing && dirty && werr == nil {
 			e3.close()
 			return fmt.Errorf("the store failed but WithTransaction reported success")
 		}
-		if outcome == "ok" && !(failing && writes > 0) && werr != nil {
+		if outcome == "ok" && !(failing && dirty) && werr != nil {
 			e3.close()
 			return fmt.Errorf("WithTransaction failed: %v", werr)
 		}
@@ -654,10 +662,15 @@ var propC03 = Register(&Prop{ID: "C03", Sub: "sessions",
 		steps := bson.A{}
 		mk := func() bson.D { return bson.D{{Key: "steps", Value: steps}} }
 		n := rapid.IntRange(12, 60).Draw(t, "nsteps")
+		trk := newOIDTracker()
 		for i := 0; i < n; i++ {
 			st := genC03Step(t, r)
 			steps = append(steps, st)
-			if err := c03Execute(r, i+1, st); err != nil {
+			err := c03Execute(r, i+1, st)
+			if ids := trk.fresh(r.main.engine.Catalog()); len(ids) > 0 {
+				steps[len(steps)-1] = append(st[:len(st):len(st)], bson.E{Key: "oids", Value: ids})
+			}
+			if err != nil {
 				return mk(), err
 			}
 		}
@@ -675,8 +688,12 @@ var propC03 = Register(&Prop{ID: "C03", Sub: "sessions",
 			return fmt.Errorf("harness: %v", err)
 		}
 		defer r.close()
+		trk := newOIDTracker()
 		for i, s := range asA(getD(c, "steps")) {
-			if err := c03Execute(r, i+1, asD(s)); err != nil {
+			rec := getD(asD(s), "oids")
+			err := c03Execute(r, i+1, trk.subst(withoutKey(asD(s), "oids")).(bson.D))
+			trk.learn(rec, r.main.engine.Catalog())
+			if err != nil {
 				return err
 			}
 		}
